@@ -168,12 +168,13 @@ Theorem f64_negzero_agree :
   encode prims_jit [] default_copts 39 (Some (TPrim KFloat32, negzero32)) = Done [45; 48]%N.
 Proof. repeat split; vm_compute; reflexivity. Qed.
 
-(* the state stack: Stack.Push admits MaxStack frames, save_state one less *)
-Theorem stack_bound_refuted : p_stack prims_vm = 4096%N /\ p_stack prims_jit = 4095%N.
+(* the state stack: Stack.Push and the JIT's save_state admit the same number of frames (vars.MaxStack);
+   formerly refuted (save_state jumped with JAE, 4095 frames), repaired by fix a4d60f7 *)
+Theorem stack_bound_agree : p_stack prims_vm = p_stack prims_jit /\ p_stack prims_vm = MaxStack.
 Proof. split; reflexivity. Qed.
 
 (* everything else agrees: the JIT with the three divergent components replaced by the interpreter's
-   (the `v == 0` branch of the float printers, which trusts no digit oracle; the state-stack bound) is the interpreter, on every type, value and option word *)
+   (the `v == 0` branch of the float printers, which trusts no digit oracle) is the interpreter, on every type, value and option word *)
 Definition prims_jit_repaired : prims := {|
   p_i64toa := p_i64toa prims_jit; p_u64toa := p_u64toa prims_jit;
   p_f64toa := p_f64toa prims_vm; p_f32toa := p_f32toa prims_vm;
